@@ -197,6 +197,12 @@ def to_coq(P, n):
     if any(find_lookups(x, []) for x in keys):
         raise OutsideModel('nested lookup')
     am = bool(lk[4]) if how == 'index' else False
+    axis_fields = s['row'] if k == 'annotate' or s['kind'] == 't' else s['row']
+
+    def mentions_axis(x):
+        return isinstance(x, list) and ((len(x) == 2 and x[0] == 'rf' and x[1] in axis_fields) or any(mentions_axis(y) for y in x))
+    if not any(mentions_axis(x) for x in keys):
+        raise OutsideModel('lookup by scalar expressions only (rejected before typing)')
     if how in ('rows', 'cols'):
         R = [how, R]
     elif how == 'entries':
@@ -210,7 +216,11 @@ def to_coq(P, n):
         raise OutsideModel('all_matches on a point key (collect_by_key)')
     uid = n.field(n.uid())
     if k == 'annotate':
-        is_key = len(keys) <= len(s['key']) and all(x == ['rf', kf] for x, kf in zip(keys, s['key']))
+        def core(x):                      # hl.int32(e) / hl.str(e) return e ITSELF when e already has that type
+            while isinstance(x, list) and x and x[0] in ('cast', 'strof'):
+                x = x[-1]
+            return x
+        is_key = len(keys) <= len(s['key']) and all(core(x) == ['rf', kf] for x, kf in zip(keys, s['key']))
         if is_key:
             raise OutsideModel('lookup by the key fields themselves (no re-keying)')
         kfs = '[' + '; '.join(f'({n.field(n.uid())}, {expr_to_coq(x, ctx, n)})' for x in keys) + ']'
@@ -491,26 +501,45 @@ class TGen:
             if t in ('int32', 'int64', 'float64') and rng.random() < 0.4:
                 return ['arith', rng.choice(['+', '*', '-']), ['rf', f], ['litint', rng.choice([1, 2, 3])]]
             return ['rf', f]
-        g = L.Gen(rng, budget=d)
-        env = [('F:' + f, ft) for f, ft in fields.items() if isinstance(ft, str)]
-        e = g.gen(t, d, env)
-
-        def fix(x):
-            if isinstance(x, list):
-                if len(x) == 2 and x[0] == 'var' and isinstance(x[1], str) and x[1].startswith('F:'):
-                    return ['rf', x[1][2:]]
-                return [fix(y) for y in x]
-            return x
-        return fix(e)
+        # small expressions the expression-level model covers completely (the expression API itself is exercised by c36_lang.Gen)
+        num = ['int32', 'int64', 'float64']
+        leaf = {'int32': lambda: ['litint', rng.choice([0, 1, 3, -7])], 'int64': lambda: ['litint', rng.choice([2 ** 40, -2 ** 33])],
+                'float64': lambda: ['litfloat', rng.randrange(4)], 'str': lambda: ['litstr', rng.randrange(5)],
+                'bool': lambda: ['litbool', rng.random() < 0.5]}
+        if d <= 0 or rng.random() < 0.3:
+            return leaf[t]()
+        if t in num:
+            lo = [x for x in num if num.index(x) <= num.index(t)]
+            k = rng.choice(['arith', 'arith', 'cast', 'if', 'neg'])
+            if k == 'arith':
+                op = rng.choice(['+', '-', '*'] + (['/'] if t == 'float64' else ['//']))
+                a_t = t if rng.random() < 0.6 else rng.choice(lo)
+                return ['arith', op, self.expr(a_t, fields, d - 1), self.expr(t, fields, d - 1)]
+            if k == 'cast':
+                return ['cast', t, self.expr(rng.choice(num + ['bool']), fields, d - 1)]
+            if k == 'neg':
+                return ['neg', self.expr(t, fields, d - 1)]
+            return ['if', self.expr('bool', fields, d - 1), self.expr(t, fields, d - 1), self.expr(rng.choice(lo), fields, d - 1)]
+        if t == 'str':
+            k = rng.choice(['concat', 'strof'])
+            if k == 'concat':
+                return ['concat', self.expr('str', fields, d - 1), self.expr('str', fields, d - 1)]
+            return ['strof', self.expr(rng.choice(TYPES), fields, d - 1)]
+        k = rng.choice(['cmp', 'cmp', 'not'])
+        if k == 'not':
+            return ['not', self.expr('bool', fields, d - 1)]
+        ct = rng.choice(TYPES)
+        ot = rng.choice(num) if ct in num and rng.random() < 0.4 else ct
+        return ['cmp', rng.choice(L.CMP if ct != 'bool' else ['==', '!=']), self.expr(ct, fields, d - 1), self.expr(ot, fields, d - 1)]
 
     def table(self, interval=None, extra_key=False):
         """(program, {row field: type}, key) of a small table; interval: point type of an interval-typed first key field"""
         rng = self.rng
         P, fields = ['range'], {'idx': 'int32'}
-        fs = []
+        fs, base = [], dict(fields)
         for f in rng.sample(L.FIELDS, rng.randint(1, 3)):
             t = rng.choice(TYPES)
-            fs.append([f, self.expr(t, fields)])
+            fs.append([f, self.expr(t, base)])
             fields[f] = t
         P = ['annotate', P, fs]
         if rng.random() < 0.3:
@@ -588,7 +617,13 @@ class TGen:
         for t in ktypes:
             if wrong and rng.random() < 0.5:
                 t = rng.choice([x for x in TYPES if x != t])
-            out.append(self.expr(t, fields, d=1))
+            cands = [f for f, ft in fields.items() if ft == t]
+            if cands and rng.random() < 0.85:      # a key that depends on the row (scalar-only keys are rejected before typing)
+                f = rng.choice(cands)
+                out.append(['rf', f] if t not in ('int32', 'int64', 'float64') or rng.random() < 0.5
+                           else ['arith', rng.choice(['+', '*']), ['rf', f], ['litint', rng.choice([1, 2])]])
+            else:
+                out.append(self.expr(t, fields, d=1))
         return out
 
     def program(self):
